@@ -95,6 +95,14 @@ def gen_cases(tier, seed):
                 for alpha in ("1/L", "1/2L"):
                     for acc in (False, True):
                         cases.append(dict(kind="gm", A=A, g=g, x0=x0, alpha=alpha, acc=acc, tier=tier))
+    # callbacks that return arrays they do not own: gradf(x) = x (its own argument, f = 1/2||x||^2) and gradf(x) = c (one
+    # persistent array, f = <c, x> on a box).  A solver that scales the callback's result in place corrupts its iterate
+    # or the caller's c.
+    for alias in ("self", "const"):
+        for g in ((None, "l1", "box") if alias == "self" else ("box",)):
+            for alpha in ("1/L", "1/2L"):
+                for acc in (False, True):
+                    cases.append(dict(kind="gm-alias", alias=alias, g=g, alpha=alpha, acc=acc, tier=tier))
     # Nesterov's worst-case quadratic in 100 unknowns, 2000 prefixes: here the O(1/k^2) bound is nearly tight, so a
     # momentum sequence that is only slightly off (e.g. t_old/t instead of (t_old-1)/t) violates it
     for g in (None, "l2sq"):
@@ -135,7 +143,62 @@ def make_prox(kind, par, shape):
 def run_case(case, seed):
     if case["kind"] == "gm":
         return run_gm(case, seed)
+    if case["kind"] == "gm-alias":
+        return run_gm_alias(case, seed)
     return run_pdhg(case, seed)
+
+
+def run_gm_alias(case, seed):
+    import sigpy as sp
+    viol = []
+    kind = case["g"]
+    par = LAM.get(kind)
+    when = "accelerate=%s, alpha=%s, g=%s, gradf returns %s" % (case["acc"], case["alpha"], kind,
+                                                                "its argument" if case["alias"] == "self" else "a persistent array")
+
+    def V(oracle, detail):
+        viol.append(dict(oracle=oracle, key=dict(site="alg.GradientMethod", when=when), detail=detail + " | " + str(case)))
+    n = 3
+    K = 60
+    if case["alias"] == "self":
+        L = 1.0
+        gradf = lambda v: v  # noqa  (f = 1/2 ||x||^2)
+        fval = lambda v: 0.5 * float(np.sum(np.abs(v) ** 2))  # noqa
+        xs = np.zeros(n)
+        c = None
+    else:
+        L = 1.0    # f is linear: any step is admissible; use 1/L = 1 and 1/2
+        c = np.array([0.3, -0.2, 0.5])
+        c0 = c.copy()
+        gradf = lambda v: c  # noqa
+        fval = lambda v: float(np.dot(c0, v))  # noqa
+        xs = np.where(c0 > 0, par[0], par[1]).astype(float)
+    alpha = (1.0 if case["alpha"] == "1/L" else 0.5) / L
+    x0 = np.array([0.35, -0.2, 0.1])
+    x = x0.copy()
+    F = lambda v: fval(v) + convex.g_val(kind, par, np.asarray(v, complex), 1e-12)  # noqa
+    Fs = F(xs)
+    alg = sp.alg.GradientMethod(gradf, x, alpha, proxg=None if kind is None else make_prox(kind, par, [n]),
+                                accelerate=case["acc"], max_iter=K, tol=0)
+    R2 = float(np.sum((x0 - xs) ** 2))
+    Fprev = F(x0)
+    slack = 1e-10
+    for k in range(1, K + 1):
+        alg.update()
+        Fk = F(x)
+        if not np.isfinite(Fk):
+            V("finite", "objective not finite after %d updates" % k)
+            break
+        if not case["acc"] and np.isfinite(Fprev) and not Fk <= Fprev + slack:
+            V("monotone", "objective rose from %.12g to %.12g at update %d" % (Fprev, Fk, k))
+            break
+        bound = R2 / (2 * alpha * k) if not case["acc"] else 2 * R2 / (alpha * (k + 1) ** 2)
+        if not Fk - Fs <= bound + slack:
+            V("rate-bound", "F(x_%d) - F* = %.6g exceeds the bound %.6g" % (k, Fk - Fs, bound))
+            break
+        Fprev = Fk
+    return dict(states=K + 1, transitions=K, traces=1, nontrivial=True,
+                outcome="ok" if not viol else "violation:" + viol[0]["oracle"], viol=viol)
 
 
 def run_gm(case, seed):
